@@ -680,12 +680,28 @@ def run_inliner(inl, fn, known=frozenset()):
 
     def function(f, outer_local=None):
         local = dict(outer_local or {})
-        for x in f.body:
-            if isinstance(x, FuncTypes) and not x.decorator_list and x.name not in known:
-                loads = [n for n in ast.walk(f) if isinstance(n, ast.Name) and n.id == x.name and isinstance(n.ctx, ast.Load)]
-                calls = [n for n in ast.walk(f) if isinstance(n, ast.Call) and isinstance(n.func, ast.Name) and n.func.id == x.name]
-                if loads and len(loads) == len(calls):
-                    local[x.name] = x
+        nested_defs = []
+        for blk in _blocks_of(f):
+            for x in blk:
+                if isinstance(x, FuncTypes) and not x.decorator_list and x.name not in known:
+                    if blk is not f.body:
+                        # a definition inside a branch: only when it is the one binding of its name in the function
+                        binds = sum(1 for n in ast.walk(f) if (isinstance(n, ast.Name) and n.id == x.name
+                                                               and isinstance(n.ctx, (ast.Store, ast.Del)))
+                                    or (isinstance(n, FuncTypes) and n is not f and n.name == x.name))
+                        if binds != 1:
+                            continue
+                        # and every call follows it in that same block
+                        idx = blk.index(x)
+                        inside = sum(1 for s2 in blk[idx + 1:] for n in ast.walk(s2) if isinstance(n, ast.Name) and n.id == x.name)
+                        total = sum(1 for n in ast.walk(f) if isinstance(n, ast.Name) and n.id == x.name)
+                        if inside != total:
+                            continue
+                        nested_defs.append((blk, x))
+                    loads = [n for n in ast.walk(f) if isinstance(n, ast.Name) and n.id == x.name and isinstance(n.ctx, ast.Load)]
+                    calls = [n for n in ast.walk(f) if isinstance(n, ast.Call) and isinstance(n.func, ast.Name) and n.func.id == x.name]
+                    if loads and len(loads) == len(calls):
+                        local[x.name] = x
         new, changed = inl.block(f.body, local)
         if changed:
             f.body = new
@@ -696,6 +712,13 @@ def run_inliner(inl, fn, known=frozenset()):
                     continue
                 keep.append(x)
             f.body = keep or [ast.Pass()]
+            for blk in _blocks_of(f):
+                for x in list(blk):
+                    if blk is not f.body and isinstance(x, FuncTypes) and x.name in local and not any(
+                            isinstance(n, ast.Name) and n.id == x.name for n in ast.walk(f) if n is not x):
+                        blk.remove(x)
+                        if not blk:
+                            blk.append(ast.Pass())
         return changed
     inl.function = function
     if function(fn):
@@ -1112,6 +1135,12 @@ def cleanup_copies(fn, only=None):
                 if only is not None and not (only(a) or only(b)):
                     continue
                 if _captured(fn, a) or _captured(fn, b):
+                    continue
+                # a free variable of this function (b is bound in an enclosing scope) must not become a local of it:
+                # only a name bound by this very copy may be replaced by it
+                own = {n.id for n in ast.walk(fn) if isinstance(n, ast.Name) and isinstance(n.ctx, (ast.Store, ast.Del))} \
+                    | {x.arg for x in ast.walk(fn.args) if isinstance(x, ast.arg)}
+                if (b not in own and len(_occ(fn, a, (ast.Store, ast.Del))) != 1) or a not in own:
                     continue
                 total_a = len(_occ(fn, a))
                 # (1) round trip
